@@ -894,16 +894,23 @@ func genHostXDefined(r *rng, tbl map[string][]c05MapEntry) []*c05HostX {
 		fmt.Fprintf(&hb.b, "type KD%s interface{ %s() string }\n\n", n, n)
 	}
 	off := 1 + r.intn(6)
-	for k := 0; k < len(configs); k++ {
+	// declaration order is a dimension too: all types first and the methods after them (order 0), or every
+	// type directly followed by its methods, so that B's methods exist when "type C B" is met (order 1)
+	for k := 0; k < 2*len(configs); k++ {
+		order := k / len(configs)
+		var typeDecl, methDecl [4]strings.Builder
 		a, b, c, d := fmt.Sprintf("DA%d", k), fmt.Sprintf("DB%d", k), fmt.Sprintf("DC%d", k), fmt.Sprintf("DD%d", k)
-		fmt.Fprintf(&hb.b, "type %s struct{ V int }\n\nfunc (r %s) Z() string { return \"%s.Z:\" + strconv.Itoa(r.V) }\n\n", a, a, a)
+		fmt.Fprintf(&typeDecl[0], "type %s struct{ V int }\n\n", a)
+		fmt.Fprintf(&methDecl[0], "func (r %s) Z() string { return \"%s.Z:\" + strconv.Itoa(r.V) }\n\n", a, a)
 		if r.bool() {
-			fmt.Fprintf(&hb.b, "type %s struct {\n\t%s\n\tX int\n}\n\n", b, a)
+			fmt.Fprintf(&typeDecl[1], "type %s struct {\n\t%s\n\tX int\n}\n\n", b, a)
 		} else {
-			fmt.Fprintf(&hb.b, "type %s struct {\n\tX int\n\t%s\n}\n\n", b, a)
+			fmt.Fprintf(&typeDecl[1], "type %s struct {\n\tX int\n\t%s\n}\n\n", b, a)
 		}
-		fmt.Fprintf(&hb.b, "type %s %s\n\ntype %s %s\n\n", c, b, d, c)
-		cfg := map[string]int{"M": configs[k], "N": configs[(k+off)%len(configs)], "String": configs[(k+2*off)%len(configs)]}
+		fmt.Fprintf(&typeDecl[2], "type %s %s\n\n", c, b)
+		fmt.Fprintf(&typeDecl[3], "type %s %s\n\n", d, c)
+		kk := k % len(configs)
+		cfg := map[string]int{"M": configs[kk], "N": configs[(kk+off)%len(configs)], "String": configs[(kk+2*off)%len(configs)]}
 		ptrC := map[string]bool{}
 		for _, n := range names {
 			for bit, t := range []string{a, b, c} {
@@ -915,7 +922,20 @@ func genHostXDefined(r *rng, tbl map[string][]c05MapEntry) []*c05HostX {
 					rc = "(r *" + t + ")"
 					ptrC[n] = true
 				}
-				fmt.Fprintf(&hb.b, "func %s %s() string { return \"%s.%s:\" + strconv.Itoa(r.V) }\n\n", rc, n, t, n)
+				fmt.Fprintf(&methDecl[bit], "func %s %s() string { return \"%s.%s:\" + strconv.Itoa(r.V) }\n\n", rc, n, t, n)
+			}
+		}
+		if order == 0 {
+			for j := range typeDecl {
+				hb.b.WriteString(typeDecl[j].String())
+			}
+			for j := range methDecl {
+				hb.b.WriteString(methDecl[j].String())
+			}
+		} else {
+			for j := range typeDecl {
+				hb.b.WriteString(typeDecl[j].String())
+				hb.b.WriteString(methDecl[j].String())
 			}
 		}
 		mk := fmt.Sprintf("c := %s{%s: %s{V: %d}, X: %d}; _ = c; ", c, a, a, 10+k, k)
@@ -924,7 +944,7 @@ func genHostXDefined(r *rng, tbl map[string][]c05MapEntry) []*c05HostX {
 			hb.probe(cs, []string{n}, []string{n}, "func() string { "+mk+expr+" }()", fmt.Sprintf("defined %s %s config %d", form, n, cfg[n]), false)
 			p := hb.probes[len(hb.probes)-1]
 			p.NoCoq, p.Region = true, region
-			p.Cell = map[string]any{"form": form, "name": n, "declaredBy(A=1,B=2,C=4)": cfg[n], "ptrRecvC": ptrC[n]}
+			p.Cell = map[string]any{"form": form, "name": n, "declaredBy(A=1,B=2,C=4)": cfg[n], "ptrRecvC": ptrC[n], "methodsFollowTheirType": order == 1}
 		}
 		for _, n := range names {
 			hasC := cfg[n]&4 != 0 || cfg[n]&1 != 0 // declared on C, or promoted from A
